@@ -33,6 +33,7 @@ class Scenario:
     prios: list = field(default_factory=lambda: [5])
     weights: dict = field(default_factory=dict)
     consume_tmo_ms: list = field(default_factory=lambda: [5, 1200, 2500])
+    schedule: bool = False               # fake servers: seeded random order of pending round trips
     fifo_only: bool = False              # only undelayed, no ttl: pure ordering histories
 
 
@@ -43,11 +44,17 @@ def make_inmem():
     return b, conn
 
 
-async def run_history(loop, sc: Scenario, make=make_inmem, projector=inmem_projector, latency_us=None, signature=inmem_signature):
+async def run_history(loop, sc: Scenario, make=None, projector=None, latency_us=None, signature=None, backend="inmem"):
     from repid.data._parameters import DelayProperties, Parameters
     from repid.message import MessageCategory
 
+    from .backends import backend as get_backend
     rng = random.Random(sc.seed)
+    random.seed(sc.seed)          # (the Redis consumer draws its priority order from the global RNG)
+    if make is None:
+        be = get_backend(backend, loop, sc.seed, schedule=sc.schedule)
+        make, projector, signature = be["make"], be["projector"], be["signature"]
+        latency_us = be["latency_us"] if latency_us is None else latency_us
     broker, conn = make()
     rec = Recorder(latency_us=latency_us)
     rec.wrap_broker(broker)
@@ -147,8 +154,9 @@ async def run_history(loop, sc: Scenario, make=make_inmem, projector=inmem_proje
             c = cons[ch[1]]
             oplog.append(("start", ch[1]))
             r = await do(n, c["obj"].start)
-            if r != "CANCELLED":
-                c["on"] = True
+            # (an interrupted start may or may not have taken effect: the client treats the consumer as
+            #  started, so that it will be finished -- a well-behaved client does not abandon it)
+            c["on"] = True
         elif ch[0] == "finish":
             c = cons[ch[1]]
             oplog.append(("finish", ch[1]))
@@ -168,7 +176,14 @@ async def run_history(loop, sc: Scenario, make=make_inmem, projector=inmem_proje
                 r = await do(n, consume_with_timeout)
             except asyncio.TimeoutError:
                 r = None
+            except RuntimeError:          # "Consumer wasn't started." (its start had been interrupted)
+                r = None
+                c["on"] = False
             if r is not None and r != "CANCELLED":
+                # a duplicate delivery (the same id handed to a second consumer while the first still holds it) is for
+                # the contract to judge; the clients stay well-behaved: only the latest receiver goes on acting on it
+                for other in cons:
+                    other["held"] = [h for h in other["held"] if h[0].id_ != r[0].id_]
                 c["held"].append(r)
                 stats["consumed"] += 1
         else:
